@@ -19,6 +19,7 @@ mod cmd_pset;
 mod cmd_batched;
 mod cmd_valeval;
 mod cmd_schema_syn;
+mod cmd_ext;
 
 /// Command families.  To add one: create src/cmd_xxx.rs with
 /// `pub fn dispatch(cmd: &str, v: &J) -> Option<Result<J, String>>`, add `mod cmd_xxx;` above
@@ -37,6 +38,7 @@ const FAMILIES: &[fn(&str, &J) -> Option<Result<J, String>>] = &[
     cmd_batched::dispatch,
     cmd_valeval::dispatch,
     cmd_schema_syn::dispatch,
+    cmd_ext::dispatch,
 ];
 
 fn dispatch(cmd: &str, v: &J) -> Result<J, String> {
